@@ -69,6 +69,7 @@ func (r routecmd) build() []string {
 
 			var weight string
 			var ropts []string
+			var invalid bool
 			for _, o := range strings.Fields(opts) {
 				switch {
 				case o == "proto=tcp":
@@ -94,12 +95,19 @@ func (r routecmd) build() []string {
 						dst = redir[1]
 						ropts = append(ropts, fmt.Sprintf("redirect=%s", redir[0]))
 					} else {
+						// without the option the route would forward
+						// the requests it was registered to redirect
 						log.Printf("[ERROR] Invalid syntax for redirect: %s. should be redirect=<code>,<url>", o)
-						continue
+						invalid = true
 					}
 				default:
 					ropts = append(ropts, o)
 				}
+			}
+
+			if invalid {
+				log.Printf("[WARN] consul: Skipping route for service %q with tag %q: invalid option", name, tag)
+				continue
 			}
 
 			cfg := "route add " + name + " " + route + " " + dst
